@@ -52,6 +52,7 @@ type S struct {
 	// client side
 	cliGot  [][]got // per client index
 	cliStreams []*stream
+	cliPrelude []bool
 	clients []*transport.TarsClient
 	done    bool
 }
@@ -302,9 +303,27 @@ func (s *S) Run(c *scen.Ctx) {
 			c.Inconclusive("listen: %v", err)
 			return
 		}
+		// in a third of the runs the first connection is lost in the middle of a frame: the next
+		// connection's stream is framed from its own first byte
+		prelude := simrt.Draw(3, "c07.prelude") == 2
+		s.mu.Lock()
+		s.cliPrelude = append(s.cliPrelude, prelude)
+		s.mu.Unlock()
 		wg.Add(1)
 		simrt.GoNamed(fmt.Sprintf("rawserver%d", i), func() {
 			defer wg.Done()
+			if prelude {
+				c0, err := l.Accept()
+				if err != nil {
+					return
+				}
+				f := append([]byte{0, 0, 0, 100}, bytes.Repeat([]byte("PRELUDE-"), 12)...)
+				k := 1 + simrt.Draw(len(f)-1, "c07.preludecut")
+				c0.Write(f[:k])
+				simrt.Sleep(time.Duration(simrt.Draw(40, "c07.preludegap")) * time.Millisecond)
+				c0.Close()
+				c.Count("fault.connection_lost_mid_frame_then_reconnect", 1)
+			}
 			conn, err := l.Accept()
 			if err != nil {
 				return
@@ -324,6 +343,18 @@ func (s *S) Run(c *scen.Ctx) {
 		s.clients = append(s.clients, tc)
 		if err := tc.Send([]byte{0, 0, 0, 8, 'h', 'e', 'l', 'o'}); err != nil {
 			c.Inconclusive("client send: %v", err)
+		}
+		if prelude {
+			simrt.Go(func() {
+				// the next request makes the client connect again (retried: the close may not have been noticed yet)
+				for k := 0; k < 20; k++ {
+					simrt.Sleep(300 * time.Millisecond)
+					tc.Send([]byte{0, 0, 0, 8, 'h', 'e', 'l', 'o'})
+					if len(simnet.PairsTo(caddr)) >= 2 {
+						return
+					}
+				}
+			})
 		}
 	}
 	wg.Wait()
@@ -450,12 +481,19 @@ func (s *S) Check(c *scen.Ctx, res *simrt.Result) {
 	for i, st := range s.cliStreams {
 		s.compare(c, "client", st, s.cliGot[i], true)
 		addr := "10.0.0.8:" + strconv.Itoa(3000+i)
-		first := true
+		// the connection that carried the stream: the first one, or the second when the first was lost mid-frame
+		want, seen := 0, 0
+		if s.cliPrelude[i] {
+			want = 1
+		}
 		for _, p := range pairs {
-			if p.Addr != addr || !first {
-				continue // later connections to this address were never accepted by the scripted peer
+			if p.Addr != addr {
+				continue
 			}
-			first = false
+			seen++
+			if seen-1 != want {
+				continue // other connections to this address: the one lost mid-frame, or never accepted by the scripted peer
+			}
 			if st.illegal != nil && st.sentAll && p.Client.ClosedAt < 0 {
 				c.Fail("C07", "not-closed-after-illegal-length", "client-receive-loop", "client side: connection %d received the illegal length prefix %x at %v and is still open 3s later", i, st.illegal[:4], st.illegalSentAt)
 			}
